@@ -284,7 +284,7 @@ pub fn process(
                 }
                 opcode |= (r.number() & 0x0f) << 4;
 
-                if k < 40 || k > 0xbf {
+                if k < 0x40 || k > 0xbf {
                     bail!("Address out of range (0x40 <= k <= 0xbf)");
                 }
 
